@@ -285,7 +285,15 @@ def judge_transient(case, ctx, prefix):
     out = run_transient(case, ctx, prefix + '/transient', want=('V', 'I', 'P'))
     if out is None:
         return
-    cd = case['circuit']
+    cd = out['cd']
+    # Tellegen's theorem holds for the reported numbers as far as KCL/KVL hold for them; their rounding error follows the
+    # conditioning of the DC matrix the model builder inverts (same policy as C10-C12)
+    from ..oracles import dynamics
+    k_build = dynamics.construction_kappa(cd)
+    if not k_build <= 1e8:
+        ctx.count('set_aside_construction_ill_conditioned')
+        return
+    bal_tol = max(1e-6, 256 * k_build * 2.0 ** -53)          # currents through micro-ohm resistors are differences of nearly equal potentials
     tot, mag = 0.0, 0.0
     for c in cd['components']:
         if c['ctor'] == 'ground':
@@ -297,7 +305,7 @@ def judge_transient(case, ctx, prefix):
         tot = tot + p
         mag = mag + np.abs(p)
     m = max(float(np.max(mag)), out['sig_v'] * out['sig_i'])
-    if m and float(np.max(np.abs(tot))) > 1e-7 * m:
+    if m and float(np.max(np.abs(tot))) > bal_tol * m:
         ctx.violation(f'{prefix}/transient/power-not-conserved', f'sum of sample-wise powers reaches {float(np.max(np.abs(tot)))!r} against {m!r}', {})
     ctx.count('balance_checked_transient')
     ctx.evaluated(circdesc.signature(cd, ('transient',)), float(np.max(mag)) > 0)
